@@ -8,7 +8,7 @@ cd $W || exit 2
 git checkout -q -- . ; git apply $O/patch.diff || { echo "patch does not apply"; exit 2; }
 mkdir -p tests; [ -f $O/demo_test.rs ] && cp $O/demo_test.rs tests/demo_test.rs
 # the build script keeps generated tables: force regeneration of the book when the patch touches its sources
-regen() { if grep -q "opening_lines.txt\|precompile/" $O/patch.diff; then rm -f target/*/build/chess-*/out/opening_book.rs target/*/*/build/chess-*/out/opening_book.rs; fi; }
+regen() { if grep -q "opening_lines.txt\|precompile/" $O/patch.diff; then rm -f target/*/build/chess-*/out/*.rs target/*/*/build/chess-*/out/*.rs; fi; }
 DEMOENV=""
 if grep -q "chess_verif" $O/demo_test.rs; then DEMOENV="RUSTFLAGS=--cfg=chess_verif CARGO_TARGET_DIR=target/verifcfg"; fi
 regen
